@@ -148,6 +148,9 @@ class CharAllowed:
                 bT, bF, bE = ISet(), ISet(), ISet()
                 r, bT, bF, bE = self.block(s.body, reach, dict(env), defcls, bT, bF, bE)
                 T, F = T | bT, F | bF
+                if s.orelse:
+                    # the else clause runs where the body completed without raising; what it raises is not caught here
+                    r, T, F, E = self.block(s.orelse, r, dict(env), defcls, T, F, E)
                 caught = ISet()
                 for h in s.handlers:
                     names = norm(h.type) if h.type is not None else "BaseException"
@@ -157,8 +160,6 @@ class CharAllowed:
                         r = r | r2
                         break
                 E = E | (bE - caught)
-                if s.orelse:
-                    raise Unsupported("try/else")
                 reach = r
                 continue
             if isinstance(s, ast.Pass):
